@@ -70,7 +70,7 @@ def contracts():
     invariant client_builder.roots@ == roots_content(root_certs@.take(it.index@)), !client_builder.insecure@,
 """}, at=[("before", "root_certs.iter()", 1, "it:"),
           ("before_stmt", "for crt_file", 1, "proof { assert(roots_content(root_certs@.take(0)) =~= Seq::<Seq<u8>>::empty()); }"),
-          ("after_stmt", "add_root_certificate", 1, """
+          ("loop_end", None, 1, """
             proof {
                 let i = it.index@;
                 assert(root_certs@.take(i + 1) =~= root_certs@.take(i).push(root_certs@[i]));
@@ -103,7 +103,7 @@ def contracts():
             assert(nonce@ == (match endpoint.nonce { Some(s) => s@, None => Seq::<char>::empty() })); //@C04.nonce_taken_from_endpoint_state
             w.net.built = Some((nonce@, url@, body@));
         }"""),
-          ("before_stmt", "if !acme_err.is_recoverable()", 1, """
+          ("before_stmt", "acme_err.is_recoverable", 1, """
                 proof {
                     assert(json_spec::<HttpApiError>(w.net.last_body) == Some(api_err));
                 }"""),
